@@ -447,4 +447,38 @@ theorem swapaxes_eq_spec {α : Type} (a : Arr α) (fill : α) (a1 a2 : Int) (m1 
 example : normalizeAxis ([2,3,4] : Shape).length (-1) = some 2 ∧ normalizeAxis ([2,3,4] : Shape).length 0 = some 0 := by decide
 example : (swapaxesView [2,3,4] 0 (-1)).map (fun v => (v.dst, v.map [3,1,0])) = some ([4,3,2], some [0,1,3]) := by decide
 
+/-- **moveaxis = NumPy** (int or list arguments, negative entries allowed): `nsrc`, `ndst` are NumPy's normalised
+    source / destination tuples (duplicate-free, equally long).  The view is `np.transpose(a, o)` for an order `o`
+    that is a permutation of the axes, carries every source axis at its destination and keeps the remaining axes in
+    their original order (which determines `o` uniquely — it is the order `np.moveaxis` builds); consequently
+    `shape[k] = src[o[k]]`, element `d` is read from `i` with `i[o[k]] = d[k]`, in bounds, a permutation of the source. -/
+theorem moveaxis_eq_spec {α : Type} (a : Arr α) (fill : α) (source destination : List Int) (nsrc ndst : List Nat)
+    (hs : normalizeAxes a.shape.length source = some nsrc)
+    (hd : normalizeAxes a.shape.length destination = some ndst)
+    (hlen : nsrc.length = ndst.length) (hns : nsrc.Nodup) (hnd : ndst.Nodup) (ha : Pos a.shape) :
+    ∃ (o : List Nat) (v : IxView), moveaxisView a.shape source destination = some v ∧
+      o.Perm (List.range a.shape.length) ∧
+      (∀ (j s d : Nat), nsrc[j]? = some s → ndst[j]? = some d → o[d]? = some s) ∧
+      o.filter (fun i => !nsrc.contains i) = (List.range a.shape.length).filter (fun i => !nsrc.contains i) ∧
+      v.src = a.shape ∧ v.dst.length = a.shape.length ∧
+      (∀ (k b : Nat), o[k]? = some b → v.dst[k]? = a.shape[b]?) ∧
+      (∀ d : Idx, d.length = a.shape.length → ∃ i, v.map d = some i ∧ i.length = a.shape.length ∧
+          ∀ (k b : Nat), o[k]? = some b → i[b]? = d[k]?) ∧
+      v.InBounds ∧ (v.apply a fill).flat.Perm a.flat := by
+  obtain ⟨o, ho, hperm, hplace, hrest⟩ :=
+    moveaxisToTranspose_spec a.shape.length source destination nsrc ndst hs hd hlen hns hnd
+  have hn := normalizeAxes_ofNat a.shape.length o (perm_range_facts o _ hperm).2.2.1
+  obtain ⟨v, hv, hsrc, hl, hsh, hmap⟩ := transpose_eq_spec a.shape _ o hn hperm
+  have hview : moveaxisView a.shape source destination = some v := by
+    simp only [moveaxisView, ho, Option.bind_some]; exact hv
+  refine ⟨o, v, hview, hperm, hplace, hrest, hsrc, hl, hsh, hmap,
+    transpose_inBounds a.shape _ o v hn hperm hv, ?_⟩
+  obtain ⟨v', hv', hp⟩ := transpose_is_permutation a fill _ o hn hperm ha
+  rw [hv] at hv'; cases hv'; exact hp
+
+example : normalizeAxes ([2,3,4,5] : Shape).length [0,-1] = some [0,3] ∧
+    normalizeAxes ([2,3,4,5] : Shape).length [-2,0] = some [2,0] ∧ [0,3].Nodup ∧ [2,0].Nodup := by decide
+example : moveaxisToTranspose 4 [0,-1] [-2,0] = some [3,1,0,2] ∧
+    (moveaxisView [2,3,4,5] [0,-1] [-2,0]).map (·.dst) = some [5,3,2,4] := by decide
+
 end NmVerif.Props.C03
